@@ -478,6 +478,37 @@ pub fn c_canon<K: KV, S: Src>(s: &mut S) {
     }
 }
 
+/// BOUNDED (input length exactly K+3, i.e. 4 k-mers): kmers_from_bytes / kmers_from_ascii return every window in order.
+pub fn c_kmers_from<K: KV, S: Src>(s: &mut S) {
+    let mut buf = [0u8; 67];
+    let mut i = 0;
+    while i < K::KK + 3 {
+        buf[i] = s.u8();
+        s.assume(buf[i] < 4);
+        i += 1;
+    }
+    let w = s.usize();
+    let j = s.usize();
+    s.assume(w < 4 && j < K::KK);
+    s.cover(w == 3);
+    let v = K::kmers_from_bytes(&buf[..K::KK + 3]);
+    chk!(s, v.len() == 4, "kmers_from_bytes yields n-K+1 k-mers");
+    chk!(s, lane(&v[w], j) == buf[w + j], "kmers_from_bytes: k-mer w is the window starting at w");
+    chk!(s, inv(&v[w]), "kmers_from_bytes keeps unused storage bits zero");
+    let short = K::kmers_from_bytes(&buf[..K::KK - 1]);
+    chk!(s, short.len() == 0, "kmers_from_bytes on a sequence shorter than K yields nothing");
+    // ASCII variant on the letters of the same bases
+    let mut abuf = [0u8; 67];
+    let mut t = 0;
+    while t < K::KK + 3 {
+        abuf[t] = crate::verif::tables::spec_letter(buf[t]) | (if s.bool() { 0x20 } else { 0 });
+        t += 1;
+    }
+    let va = K::kmers_from_ascii(&abuf[..K::KK + 3]);
+    chk!(s, va.len() == 4, "kmers_from_ascii yields n-K+1 k-mers");
+    chk!(s, lane(&va[w], j) == buf[w + j], "kmers_from_ascii: k-mer w is the window starting at w (either case)");
+}
+
 macro_rules! kmer_suite {
     ($m:ident, $ty:ty, unwind $u:expr, small $small:tt) => {
         pub mod $m {
@@ -500,6 +531,7 @@ macro_rules! kmer_suite {
             harness!(k_hash, c_hash::<T, _>, unwind 67);
             harness!(k_min_rc, c_min_rc::<T, _>, unwind $u);
             harness!(k_canon, c_canon::<T, _>, unwind $u);
+            harness!(k_kmers_from, c_kmers_from::<T, _>, unwind 70);
             kmer_suite!(@small $small $u);
             pub fn replay(name: &str, s: &mut $crate::verif::src::RSrc) -> bool {
                 match name {
@@ -520,6 +552,7 @@ macro_rules! kmer_suite {
                     "k_hash" => c_hash::<T, _>(s),
                     "k_min_rc" => c_min_rc::<T, _>(s),
                     "k_canon" => c_canon::<T, _>(s),
+                    "k_kmers_from" => c_kmers_from::<T, _>(s),
                     "k_to_u64" => {
                         if T::KK <= 32 {
                             c_to_u64::<T, _>(s)
